@@ -179,8 +179,9 @@ func c06Check(c *Ctx, cs *c06Case, sample bool) {
 		if cs.PreGen {
 			ht.SetRowClassGenerator(func(rowNum int, ctx interface{}) template.HTMLAttr { return "earlier-generator" }, "earlier context")
 		}
-		b := spec.BuildStaged(t0, cs.StageAt, func() { ht.Render() })
-		ht.Render()
+		b := spec.BuildStaged(t0, cs.StageAt, func() { o, _ := ht.Render(); c.Keep(o, "an earlier Render through the same wrapper") })
+		o, _ := ht.Render()
+		c.Keep(o, "an earlier Render through the same wrapper")
 		b.Finalize()
 		ht.SetRowClassGenerator(nil, nil)
 		c.Rec.Count("staged_cases(render, change, render again through the same wrapper)", 1)
